@@ -3,7 +3,9 @@
 //! for every evaluation of the representation invariant, is beyond the SAT back end (the same
 //! circuit duplicated many times).  The harnesses therefore replace the two std functions by
 //! uninterpreted functions constrained only by the facts the proofs use:
-//!   S = as_secs_f32 : a function of the duration (memoised), monotone, S(ZERO) = 0, S >= 0, not NaN;
+//!   S = as_secs_f32 : a function of the duration (memoised), monotone, S(ZERO) = 0, S >= 0, not NaN
+//!       (durations below 2^23 s = 97 days: there the integer seconds are exact in f32, each of the
+//!       three roundings is monotone and seconds differ by at least the largest possible fraction);
 //!   D = from_secs_f32: a function of its argument (memoised), D(0.0) = ZERO.
 //! Those facts about the *real* std functions are proved by the harnesses at the bottom
 //! (`std_as_secs_f32_facts`, `std_from_secs_f32_zero`) with the word-level solver.
@@ -79,7 +81,7 @@ pub fn from_secs_f32_model(x: f32) -> Duration {
         }
         let s: u64 = kani::any();
         let n: u32 = kani::any();
-        kani::assume(s < (1u64 << 40) && n < 1_000_000_000);
+        kani::assume(s < (1u64 << 23) && n < 1_000_000_000);
         if x == 0.0 {
             kani::assume(s == 0 && n == 0);
         }
@@ -96,7 +98,9 @@ pub fn from_secs_f32_model(x: f32) -> Duration {
 #[kani::solver(cvc5)]
 fn std_as_secs_f32_facts() {
     let (s1, n1, s2, n2): (u64, u32, u64, u32) = (kani::any(), kani::any(), kani::any(), kani::any());
-    kani::assume(n1 < 1_000_000_000 && n2 < 1_000_000_000);
+    // the domain the animator / Bevy harnesses draw durations from: below 2^23 s (97 days), where the
+    // integer seconds are exact in f32
+    kani::assume(n1 < 1_000_000_000 && n2 < 1_000_000_000 && s1 < (1u64 << 23) && s2 < (1u64 << 23));
     let a = Duration::new(s1, n1);
     let b = Duration::new(s2, n2);
     let (fa, fb) = (a.as_secs_f32(), b.as_secs_f32());
